@@ -58,17 +58,19 @@ Act ==
         /\ ToTake
      \/ /\ Line.e = "drop"
         /\ Line.o \in DOMAIN reqs
-        /\ DropReq(Line.o)
+        /\ \E al \in Aliases(Line.o) : DropReq(Line.o, al)
         /\ UNCHANGED corevars /\ Next1
      \/ /\ Line.e = "abort"
         /\ AbortCmd(Line.c)
         /\ UNCHANGED corevars /\ Next1
      \/ /\ Line.e = "bad_event"
         /\ Line.res = "deserialize_event"
+        /\ Line.us <= 1000000 /\ Line.peak <= 2097152 + 64 * Line.n
         /\ UNCHANGED <<cvars, corevars>>
         /\ ToTake
      \/ /\ Line.e = "bad_response"
         /\ Line.res = "deserialize_output"
+        /\ Line.us <= 1000000 /\ Line.peak <= 2097152 + 64 * Line.n
         /\ Line.id \in DOMAIN registry /\ registry[Line.id].rid = Line.o
         /\ RespondBad(Line.id)
         /\ ToTake
